@@ -580,7 +580,7 @@ def prt_form(sink, msgs):
 def judge_prt(w, out):
     m = PRT_OUT_RE.match(out)
     if out.startswith("runaway "):
-        return "the print macro does not terminate: still calling write after 20000 calls (" + out + ")"
+        return "the print macro does not terminate: still calling write after 5000 calls (" + out + ")"
     if not m:
         return "unexpected output: " + out[:80]
     if m.group(1) == "panic":
